@@ -59,7 +59,7 @@ def cfgs(tier):
 def tasks(tier, seed):
     T = []
     for c in cfgs(tier):
-        for sc in ('fresh', 'same', 'interleaved', 'split'):
+        for sc in ('fresh', 'same', 'interleaved', 'split', 'reuse'):
             T.append((sc, json.dumps(c, sort_keys=True)))
     T.append(('float', json.dumps(cfgs(tier)[1], sort_keys=True)))
     T.append(('float', json.dumps(cfgs(tier)[5], sort_keys=True)))
@@ -178,6 +178,14 @@ def scenario_case(rep, scenario, cfg):
             _, u3, s3, _ = run_once(c, cfg, ctl=ctlA, xs=xs)
             # clean up the class-level attribute registration so that later cases start from the same process state
             return [((u1, s1), (u2, s2)), ((u1, s1), (u3, s3))]
+        if scenario == 'reuse':
+            # a controller that has already done a DIFFERENT run (other initial value, other start time) must behave like a fresh one
+            ys = [z3.Real(f'y{i}') for i in range(n)]
+            t1 = cfg['dt'] * 3
+            ctl, _u, _s, _ = run_once(c, cfg, xs=xs)
+            _, u2, s2, _ = run_once(c, cfg, ctl=ctl, xs=ys, t0=t1)
+            _, u3, s3, _ = run_once(c, cfg, xs=ys, t0=t1)
+            return [((u3, s3), (u2, s2))]
         if scenario == 'split':
             pairs = []
             _, ufull, sfull, _ = run_once(c, cfg, xs=xs)
@@ -221,6 +229,11 @@ def float_runs(scenario, cfg, x=0.7321):
         ctl, a, _ = go()
         _, b, _ = go(ctl)
         return [(a, b)]
+    if scenario == 'reuse':
+        ctl, _a, _ = go()
+        _, b, _ = go(ctl, x0=0.3 * x, t0=3 * cfg['dt'])
+        _, c_, _ = go(x0=0.3 * x, t0=3 * cfg['dt'])
+        return [(c_, b)]
     out = []
     _, full, _ = go()
     for k in range(1, cfg.get('blocks', 1)):
